@@ -17,8 +17,10 @@ import (
 
 	"github.com/tendermint/tendermint/config"
 	"github.com/tendermint/tendermint/evidence"
+	tmjson "github.com/tendermint/tendermint/libs/json"
 	"github.com/tendermint/tendermint/p2p"
 	"github.com/tendermint/tendermint/p2p/mock"
+	rpccore "github.com/tendermint/tendermint/rpc/core"
 
 	tmproto "github.com/tendermint/tendermint/proto/tendermint/types"
 	"github.com/tendermint/tendermint/types"
@@ -73,7 +75,29 @@ func showKeys(l []string) string {
 }
 
 func (c *chain) view() string {
-	return fmt.Sprintf("size=%d pend=%s comm=%s", c.pool.Size(), showKeys(keysOf(c.evDB, 1)), showKeys(keysOf(c.evDB, 0)))
+	return fmt.Sprintf("size=%d pend=%s comm=%s bad=%d", c.pool.Size(), showKeys(keysOf(c.evDB, 1)), showKeys(keysOf(c.evDB, 0)), undecodable(c.evDB))
+}
+
+// undecodable: pending records that do not decode (protobuf + ValidateBasic) - what a restart, the
+// proposer and every peer receiving them would do with them
+func undecodable(db dbm.DB) int {
+	it, err := dbm.IteratePrefix(db, []byte{1})
+	if err != nil {
+		return -1
+	}
+	defer it.Close()
+	n := 0
+	for ; it.Valid(); it.Next() {
+		var pb tmproto.Evidence
+		if pb.Unmarshal(it.Value()) != nil {
+			n++
+			continue
+		}
+		if _, err := types.EvidenceFromProto(&pb); err != nil {
+			n++
+		}
+	}
+	return n
 }
 
 func classify(err error, ev types.Evidence) string {
@@ -243,6 +267,9 @@ func execCase(cs core.Case) []string {
 
 var dumpMu sync.Mutex
 
+// rpc/core keeps its environment in a package variable: one RPC call at a time
+var rpcMu sync.Mutex
+
 func execOp(cp **chain, op string) (res string) {
 	f := strings.Fields(op)
 	if len(f) == 0 {
@@ -374,7 +401,7 @@ func execOp(cp **chain, op string) (res string) {
 	if c.dead { // a panic killed the process: only a restart (and the stores) continue
 		switch f[0] {
 		case "grow", "restart":
-		case "add", "check", "update", "cupdate", "report", "pe", "recv":
+		case "add", "check", "update", "cupdate", "report", "pe", "recv", "rpcbroadcast":
 			if r := deadOp(c, f[0], m); r != "" {
 				return r
 			}
@@ -516,6 +543,37 @@ func execOp(cp **chain, op string) (res string) {
 			c.pool.ReportConflictingVotes(&a, &b)
 		}
 		return "ok " + c.view()
+	case "rpcbroadcast":
+		// the broadcast_evidence RPC: the evidence arrives decoded from JSON, nothing before
+		// rpc/core.BroadcastEvidence has validated it
+		d, ok := c.defs[m["e"]]
+		if !ok {
+			return "bad-op"
+		}
+		bz, err := tmjson.Marshal(d.raw)
+		var ev types.Evidence
+		if err != nil || tmjson.Unmarshal(bz, &ev) != nil {
+			return "bad-op"
+		}
+		rpcMu.Lock()
+		rpccore.SetEnvironment(&rpccore.Environment{EvidencePool: c.pool})
+		var rerr error
+		_, pan := guard(func() error { _, rerr = rpccore.BroadcastEvidence(nil, ev); return nil })
+		rpcMu.Unlock()
+		if pan {
+			return "panic " + c.view()
+		}
+		r := "ok"
+		if rerr != nil {
+			s := rerr.Error()
+			switch {
+			case strings.Contains(s, "ValidateBasic failed"):
+				r = "err-basic"
+			default:
+				r = classify(rerr, ev)
+			}
+		}
+		return r + " " + c.view()
 	case "recv":
 		l, okL := get("l")
 		ds, ok := c.lookupAll(l, okL)
@@ -600,7 +658,7 @@ func execOp(cp **chain, op string) (res string) {
 func deadOp(c *chain, op string, m map[string]string) string {
 	ok := false
 	switch op {
-	case "add":
+	case "add", "rpcbroadcast":
 		_, ok = c.defs[m["e"]]
 	case "check":
 		l, has := m["l"]
